@@ -1313,5 +1313,269 @@ theorem FInv.run (all : List Op) : ∀ (ops : List Op) (hm : HM), hm.override = 
     | addModel m o => exact h.addModel hov m o (hf.sub _ (List.mem_cons_self ..))
     | fire m e => exact h.fire m e
 
+
+/-! ### auto transitions -/
+
+theorem infixed_inj (attr a b : Name) (h : infixed attr a = infixed attr b) : a = b := by
+  unfold infixed at h
+  split at h
+  · exact h
+  · have h2 := List.append_cancel_left h
+    injection h2
+
+theorem toName_inj (attr a b : Name) (h : toName attr a = toName attr b) : a = b :=
+  infixed_inj attr a b (List.append_cancel_left h)
+
+theorem isName_inj (attr a b : Name) (h : isName attr a = isName attr b) : a = b :=
+  infixed_inj attr a b (List.append_cancel_left h)
+
+theorem toName_prefix (attr s : Name) : sTo <+: toName attr s := List.prefix_append _ _
+
+theorem toName_ne_attr (attr s : Name) : toName attr s ≠ attr := by
+  unfold toName infixed
+  split
+  · rename_i h; subst h; simp [sTo, sState]
+  · intro h
+    have := congrArg List.length h
+    simp [sTo] at this
+    omega
+
+/-- some transition of `to_<d>` leaves from `s` -/
+def Cov (hm : HM) (s d : Name) : Prop :=
+  ∃ ts, kget (toName hm.attr d) hm.events = some ts ∧ ∃ t ∈ ts, t.source = s
+
+/-- every event named like an auto transition IS one: only on machines with auto transitions, named
+after a registered state, all its transitions lead there unconditionally from registered states -/
+def AutoShape (hm : HM) : Prop :=
+  ∀ e ts, kget e hm.events = some ts → sTo <+: e →
+    hm.auto = true ∧ ∃ d ∈ hm.states, e = toName hm.attr d ∧
+      ∀ t ∈ ts, t.dest = some d ∧ t.pass = true ∧ t.source ∈ hm.states
+
+structure AutoInv (hm : HM) : Prop where
+  cover : hm.auto = true → ∀ s ∈ hm.states, ∀ d ∈ hm.states, Cov hm s d
+  shape : AutoShape hm
+
+/-- a user-level `add_transition`: the event is not named like an auto transition -/
+theorem AutoInv.addTransition_user {hm : HM} (h : AutoInv hm) (e : Name) (src : Src) (dst : Dst) (pass : Bool)
+    (hu : ¬ sTo <+: e) : AutoInv (addTransition hm e src dst pass).1 := by
+  by_cases hne : e = hm.attr
+  · subst hne; rw [addTransition_attr_raises]; exact h
+  · obtain ⟨_, sh, _⟩ := addTransition_shape hm e src dst pass hne
+    generalize (Helpers.addTransition hm e src dst pass).1 = hm' at *
+    have hoth : ∀ e', sTo <+: e' → kget e' hm'.events = kget e' hm.events :=
+      fun e' he' => sh.other e' (by intro h1; subst h1; exact hu he')
+    refine ⟨?_, ?_⟩
+    · intro ha s hs d hd
+      rw [sh.auto] at ha; rw [sh.states] at hs hd
+      obtain ⟨ts, hk, ht⟩ := h.cover ha s hs d hd
+      exact ⟨ts, by rw [sh.attr, hoth _ (toName_prefix _ _)]; exact hk, ht⟩
+    · intro e' ts hk hp
+      rw [hoth e' hp] at hk
+      rw [sh.auto, sh.states, sh.attr]
+      exact h.shape e' ts hk hp
+
+/-- the auto-transition call of `add_states` for the pair (`a`, new state `s`) -/
+theorem AutoShape.addTransition_auto {hm : HM} (h : AutoShape hm) (ha : hm.auto = true) (s a : Name)
+    (hs : s ∈ hm.states) (has : a ∈ hm.states) :
+    let hm' := (addTransition hm (toName hm.attr a) (if a = s then Src.all else Src.one s) (Dst.to a) true).1
+    (addTransition hm (toName hm.attr a) (if a = s then Src.all else Src.one s) (Dst.to a) true).2 = none ∧
+    AutoShape hm' ∧ (∀ x y, Cov hm x y → Cov hm' x y) ∧
+    (a = s → ∀ x ∈ hm.states, Cov hm' x s) ∧ (a ≠ s → Cov hm' s a) := by
+  intro hm'
+  obtain ⟨hnone, sh, hkey⟩ := addTransition_shape hm (toName hm.attr a) (if a = s then Src.all else Src.one s) (Dst.to a) true
+    (toName_ne_attr _ _)
+  have hmono : ∀ x y, Cov hm x y → Cov hm' x y := by
+    intro x y ⟨ts, hk, t, ht, hts⟩
+    by_cases hy : toName hm.attr y = toName hm.attr a
+    · refine ⟨_, by rw [sh.attr, hy]; exact hkey, t, ?_, hts⟩
+      rw [← hy, hk]; exact List.mem_append_left _ ht
+    · exact ⟨ts, by rw [sh.attr, sh.other _ hy]; exact hk, t, ht, hts⟩
+  refine ⟨hnone, ?_, hmono, ?_, ?_⟩
+  · intro e ts hk hp
+    rw [sh.auto, sh.states, sh.attr]
+    by_cases he : e = toName hm.attr a
+    · subst he
+      rw [hkey] at hk; injection hk with hk
+      refine ⟨ha, a, has, rfl, ?_⟩
+      intro t ht
+      rw [← hk] at ht
+      rcases List.mem_append.mp ht with h1 | h1
+      · cases hko : kget (toName hm.attr a) hm.events with
+        | none => rw [hko] at h1; cases h1
+        | some old =>
+          rw [hko] at h1
+          obtain ⟨_, d, hd, hde, hall⟩ := h _ old hko hp
+          have : a = d := toName_inj _ _ _ hde
+          subst this
+          exact hall t h1
+      · obtain ⟨x, hx, rfl⟩ := List.mem_map.mp h1
+        refine ⟨rfl, rfl, ?_⟩
+        show x ∈ hm.states
+        split at hx
+        · exact hx
+        · simp [Src.expand] at hx; rw [hx]; exact hs
+    · rw [sh.other e he] at hk
+      exact h e ts hk hp
+  · intro has' x hx
+    subst has'
+    refine ⟨_, by rw [sh.attr]; exact hkey, mkTr (.to a) true x, ?_, rfl⟩
+    apply List.mem_append_right
+    simp only [if_true, Src.expand]
+    exact List.mem_map_of_mem hx
+  · intro has'
+    refine ⟨_, by rw [sh.attr]; exact hkey, mkTr (.to a) true s, ?_, rfl⟩
+    apply List.mem_append_right
+    simp [has', Src.expand]
+
+theorem autoLoop_auto (s : Name) : ∀ (l : List Name) (h : HM), AutoShape h → h.auto = true → s ∈ h.states →
+    (∀ a ∈ l, a ∈ h.states) →
+    AutoShape (autoLoop s l h).1 ∧ (∀ x y, Cov h x y → Cov (autoLoop s l h).1 x y) ∧
+    (∀ a ∈ l, (a = s → ∀ x ∈ h.states, Cov (autoLoop s l h).1 x s) ∧ (a ≠ s → Cov (autoLoop s l h).1 s a))
+  | [], h, hi, _, _, _ => ⟨hi, fun _ _ c => c, fun a ha => by cases ha⟩
+  | a :: r, h, hi, hau, hs, hl => by
+    unfold autoLoop
+    obtain ⟨hnone, hi', hmono, h1, h2⟩ := hi.addTransition_auto hau s a hs (hl a (List.mem_cons_self ..))
+    have hc := addTransition_consts h (toName h.attr a) (if a = s then Src.all else Src.one s) (Dst.to a) true
+    have hst : (Helpers.addTransition h (toName h.attr a) (if a = s then Src.all else Src.one s) (Dst.to a) true).1.states = h.states :=
+      (addTransition_shape h _ _ _ _ (toName_ne_attr _ _)).2.1.states
+    cases hr : Helpers.addTransition h (toName h.attr a) (if a = s then Src.all else Src.one s) (Dst.to a) true with
+    | mk h' err =>
+      rw [hr] at hnone hi' hmono h1 h2 hc hst
+      simp only at hnone hi' hmono h1 h2 hc hst
+      subst hnone
+      simp only
+      obtain ⟨r1, r2, r3⟩ := autoLoop_auto s r h' hi' (hc.auto.trans hau) (by rw [hst]; exact hs)
+        (fun x hx => by rw [hst]; exact hl x (List.mem_cons_of_mem _ hx))
+      refine ⟨r1, fun x y c => r2 x y (hmono x y c), ?_⟩
+      intro b hb
+      rcases List.mem_cons.mp hb with hb | hb
+      · subst hb
+        exact ⟨fun e x hx => r2 _ _ (h1 e x hx), fun e => r2 _ _ (h2 e)⟩
+      · have := r3 b hb
+        exact ⟨fun e x hx => this.1 e x (by rw [hst]; exact hx), this.2⟩
+
+theorem mem_core_states {hm : HM} {s x : Name} (h : x ∈ (addStateCore hm s).states) : x ∈ hm.states ∨ x = s := by
+  simp only [Helpers.addStateCore] at h
+  split at h
+  · exact Or.inl h
+  · rcases List.mem_append.mp h with h1 | h1
+    · exact Or.inl h1
+    · exact Or.inr (by simpa using h1)
+
+theorem AutoInv.addState {hm : HM} (h : AutoInv hm) (s : Name) : AutoInv (addState hm s).1 := by
+  have hsub : ∀ x ∈ hm.states, x ∈ (addStateCore hm s).states := by
+    intro x hx; simp only [Helpers.addStateCore]; split
+    · exact hx
+    · exact List.mem_append_left _ hx
+  have hs : s ∈ (addStateCore hm s).states := by
+    simp only [Helpers.addStateCore]; split
+    · assumption
+    · simp
+  have hshape : AutoShape (addStateCore hm s) := by
+    intro e ts hk hp
+    obtain ⟨a, d, hd, he, hall⟩ := h.shape e ts hk hp
+    exact ⟨a, d, hsub d hd, he, fun t ht => ⟨(hall t ht).1, (hall t ht).2.1, hsub _ (hall t ht).2.2⟩⟩
+  rw [addState_eq]
+  cases hau : hm.auto with
+  | false =>
+    simp only [Bool.false_eq_true, if_false]
+    exact ⟨(fun ha => by rw [show (addStateCore hm s).auto = hm.auto from rfl, hau] at ha; cases ha), hshape⟩
+  | true =>
+    simp only [if_true]
+    obtain ⟨r1, r2, r3⟩ := autoLoop_auto s (addStateCore hm s).states (addStateCore hm s) hshape hau hs (fun _ h => h)
+    obtain ⟨hst, _, hat, _, _⟩ := autoLoop_states s (addStateCore hm s).states (addStateCore hm s)
+    refine ⟨?_, r1⟩
+    intro _ x hx d hd
+    rw [hst] at hx hd
+    by_cases hxs : x = s
+    · subst hxs
+      by_cases hds : d = x
+      · subst hds; exact (r3 d hd).1 rfl d hd
+      · exact (r3 d hd).2 hds
+    · by_cases hds : d = s
+      · subst hds; exact (r3 d hd).1 rfl x hx
+      · have hx' : x ∈ hm.states := (mem_core_states hx).resolve_right hxs
+        have hd' : d ∈ hm.states := (mem_core_states hd).resolve_right hds
+        exact r2 x d (h.cover hau x hx' d hd')
+
+theorem AutoInv.setInitial {hm : HM} (h : AutoInv hm) (s : Name) : AutoInv (setInitial hm s).1 := by
+  unfold Helpers.setInitial
+  by_cases hs : s ∈ hm.states
+  · simp only [hs, if_true]; exact ⟨h.cover, h.shape⟩
+  · simp only [hs, if_false]
+    have hi := h.addState s
+    cases hr : Helpers.addState hm s with
+    | mk h' err =>
+      rw [hr] at hi
+      cases err with
+      | some e => exact hi
+      | none => exact ⟨hi.cover, hi.shape⟩
+
+theorem AutoInv.addModel {hm : HM} (h : AutoInv hm) (m : Nat) (o : Obj) : AutoInv (addModel hm m o).1 := by
+  unfold Helpers.addModel
+  split
+  · exact h
+  · split
+    · exact h
+    · split
+      · exact ⟨h.cover, h.shape⟩
+      · exact h
+
+theorem AutoInv.fire {hm : HM} (h : AutoInv hm) (m : Nat) (e : Name) : AutoInv (fire hm m e).1 := by
+  unfold Helpers.fire
+  repeat' split
+  all_goals first | exact h | exact ⟨h.cover, h.shape⟩
+
+theorem AutoInv.removeTransition {hm : HM} (h : AutoInv hm) (e : Name) (src dst : Option Name) (hu : ¬ sTo <+: e) :
+    AutoInv (removeTransition hm e src dst).1 := by
+  have hne : ∀ e', sTo <+: e' → e' ≠ e := fun e' he' h1 => hu (h1 ▸ he')
+  have hkeep : ∀ (evs : List (Name × List Tr)), (∀ e', e' ≠ e → kget e' evs = kget e' hm.events) →
+      ∀ (objs : List (Nat × Obj)), AutoInv { hm with events := evs, objs := objs } := by
+    intro evs hev objs
+    refine ⟨?_, ?_⟩
+    · intro ha x hx d hd
+      obtain ⟨ts, hk, ht⟩ := h.cover ha x hx d hd
+      exact ⟨ts, by show kget (toName hm.attr d) evs = _; rw [hev _ (hne _ (toName_prefix _ _))]; exact hk, ht⟩
+    · intro e' ts hk hp
+      have hk' : kget e' evs = some ts := hk
+      rw [hev _ (hne _ hp)] at hk'
+      exact h.shape e' ts hk' hp
+  unfold Helpers.removeTransition
+  cases hk : kget e hm.events with
+  | none => exact h
+  | some ts =>
+    simp only
+    cases hf : ts.filter (keepTr src dst) with
+    | cons t keep =>
+      simp only
+      exact hkeep _ (fun e' he' => kget_kset_ne _ _ _ _ he') _
+    | nil =>
+      simp only
+      split
+      · exact hkeep _ (fun e' he' => kget_kdel_ne _ _ _ he') _
+      · exact hkeep _ (fun _ _ => rfl) _
+
+/-- name hygiene of a history: `add_transition` / `remove_transition` never name an event `to_…` -/
+def UserEvents (ops : List Op) : Prop :=
+  (∀ e src dst pass, Op.addTransition e src dst pass ∈ ops → ¬ sTo <+: e) ∧
+  (∀ e src dst, Op.removeTransition e src dst ∈ ops → ¬ sTo <+: e)
+
+theorem AutoInv.run : ∀ (ops : List Op) (hm : HM), AutoInv hm → UserEvents ops → AutoInv (run hm ops)
+  | [], _, h, _ => h
+  | op :: r, hm, h, hu => by
+    unfold Helpers.run
+    refine AutoInv.run r _ ?_ ⟨fun e s d p hm' => hu.1 e s d p (List.mem_cons_of_mem _ hm'),
+      fun e s d hm' => hu.2 e s d (List.mem_cons_of_mem _ hm')⟩
+    cases op with
+    | setInitial s => exact h.setInitial s
+    | addState s => exact h.addState s
+    | addTransition e src dst pass => exact h.addTransition_user e src dst pass (hu.1 e src dst pass (List.mem_cons_self ..))
+    | removeTransition e src dst => exact h.removeTransition e src dst (hu.2 e src dst (List.mem_cons_self ..))
+    | addModel m o => exact h.addModel m o
+    | fire m e => exact h.fire m e
+
+theorem AutoInv.new (attr : Name) (ov auto : Bool) : AutoInv (HM.new attr ov auto) :=
+  ⟨(fun _ s hs => by cases hs), (fun e ts hk _ => by cases hk)⟩
+
 end Helpers
 end TM
